@@ -615,3 +615,44 @@ func init() {
 		MinReach: []string{"end", "end-toomany"}, TVVectors: 2, Solver: "z3-new -in",
 	})
 }
+
+func init() {
+	register(&Property{
+		ID: "C13", Dirs: []string{"root"},
+		Jobs: func(tier string) []Job {
+			var jobs []Job
+			add := func(types string, n, strlen int, header, emptynull, reorder string) {
+				jobs = append(jobs, Job{Harness: "VX_C13_roundtrip", Params: P("types", types, "n", itoa(n), "strlen", itoa(strlen), "header", header, "emptynull", emptynull, "reorder", reorder), MaxPaths: 300000})
+			}
+			sl := 2
+			if tier == "thorough" {
+				sl = 3
+			}
+			for _, en := range []string{"false", "true"} {
+				add("string", 1, sl, "true", en, "false")
+				add("string", 2, 1, "true", en, "false")
+				add("string", 1, sl, "false", en, "false")
+				add("string,int", 1, 1, "true", en, "true")
+				add("int,string", 2, 1, "true", en, "false")
+				add("enum,float", 2, 1, "true", en, "false")
+				add("float,bool", 2, 1, "true", en, "true")
+				add("int", 2, 1, "false", en, "false")
+				if tier == "thorough" {
+					add("string,string", 1, 2, "true", en, "false")
+					add("string", 2, 2, "true", en, "false")
+					add("bool,enum", 2, 1, "false", en, "true")
+				}
+			}
+			return jobs
+		},
+		Bounds: func(tier string) string {
+			if tier == "thorough" {
+				return "frames of 1-2 columns x 1-2 rows (derived: reversed rows of a larger physical frame), string cells of 0..3 bytes over {comma, quote, LF, space, a, backslash, dot, 0x80, 0xC3} and null, enum/int/float/bool cells symbolic; Header on/off, Columns(order), EmptyNull on/off; real encoding/csv.Writer, bufio, bytes.Reader, fastcsv, ReadCSV, New"
+			}
+			return "frames of 1-2 columns x 1-2 rows (derived: reversed rows of a larger physical frame), string cells of 0..2 bytes over {comma, quote, LF, space, a, backslash, dot, 0x80, 0xC3} and null, enum/int/float/bool cells symbolic; Header on/off, Columns(order), EmptyNull on/off; real encoding/csv.Writer, bufio, bytes.Reader, fastcsv, ReadCSV, New"
+		},
+		Assume:   []string{"decimal text of symbolic numbers is the injective fixed-width model (DESIGN 3.4): 'bit-identical floats' therefore rests on strconv being its own inverse (trusted)", "the reader delivers whole buffers (fragmentation is C12's)", "CR inside cells excluded by the statement"},
+		Outside:  []string{"strings longer than 3 bytes, more than 2x2 cells"},
+		MinReach: []string{"end"}, TVVectors: 2,
+	})
+}
